@@ -2,6 +2,7 @@
 //! (None = not mine). Panics of the library propagate to main's catch_unwind.
 use crate::term::Term;
 
+pub mod cli;
 pub mod elem;
 pub mod poly;
 pub mod round2;
@@ -20,6 +21,7 @@ pub fn dispatch(op: &str, args: &[Term]) -> Option<Term> {
         return Some(crate::term::tl(args.to_vec()));
     }
     None.or_else(|| elem::dispatch(op, args))
+        .or_else(|| cli::dispatch(op, args))
         .or_else(|| poly::dispatch(op, args))
         .or_else(|| round2::dispatch(op, args))
         .or_else(|| ideal::dispatch(op, args))
